@@ -69,8 +69,8 @@ PROPS = {
          "thorough": {"_runs": 20000, "error": 50000, "torn": 2000}},
         "Fault enumeration: every storage-call position of every scripted flow on both routers is failed once per fault kind (complete in k for the flows and configurations run); the response is checked for an error answer and for the absence of codes, tokens, claims and active:true.",
         "DESIGN.md section 4 C10", level="fault_enumeration",
-        level_note="Trusted: SimStore reports every injected fault as an error (no silent loss); the flow scripts cover 26 target requests x 2 routers. Multi-fault sequences are not enumerated."),
-        exhaustive_if_probes=[f"flow:{f}/{r}" for f in ['authorize', 'authorize-with-hint', 'callback-code', 'callback-code-formpost', 'callback-idtoken-token', 'callback-idtoken', 'callback-idtoken-token-formpost', 'code-exchange', 'code-exchange-offline', 'code-exchange-public', 'code-exchange-jwtclient', 'refresh', 'client-credentials', 'jwt-bearer', 'token-exchange-access', 'token-exchange-refresh', 'token-exchange-id', 'token-exchange-actor', 'device-authorization', 'device-token', 'userinfo', 'introspect', 'revoke-access', 'revoke-refresh', 'end-session', 'keys'] for r in ("A", "B")]),
+        level_note="Trusted: SimStore reports every injected fault as an error (no silent loss); the flow scripts cover 27 target requests x 2 routers. Multi-fault sequences are not enumerated."),
+        exhaustive_if_probes=[f"flow:{f}/{r}" for f in ['authorize', 'authorize-unregistered-uri', 'authorize-with-hint', 'callback-code', 'callback-code-formpost', 'callback-idtoken-token', 'callback-idtoken', 'callback-idtoken-token-formpost', 'code-exchange', 'code-exchange-offline', 'code-exchange-public', 'code-exchange-jwtclient', 'refresh', 'client-credentials', 'jwt-bearer', 'token-exchange-access', 'token-exchange-refresh', 'token-exchange-id', 'token-exchange-actor', 'device-authorization', 'device-token', 'userinfo', 'introspect', 'revoke-access', 'revoke-refresh', 'end-session', 'keys'] for r in ("A", "B")]),
     "C05": flow(
         "W-flows",
         "deterministic simulation: seeded histories of token, introspection, revocation and device-authorization requests by honest and hostile clients with every credential presentation; success checked against a reference authentication/grant matrix",
